@@ -133,6 +133,31 @@ Definition cl_same (cl cl' : sclient) : Prop :=
   sc_slot cl' = sc_slot cl /\ sc_authorized cl' = sc_authorized cl /\ sc_vis cl' = sc_vis cl /\
   forall e, mutation_tick (sc_ticks cl') e <> None <-> mutation_tick (sc_ticks cl) e <> None.
 
+(* proof vocabulary: the common shape of a removal / a change entry *)
+Definition abs_upd {A} (upd : A -> list N -> list N) (st : structure) (r : N * A) : structure :=
+  al_insert (fst r) (upd (snd r) (kinds_of st (fst r))) st.
+
+(* proof vocabulary: `collect_entity` for one replicated entity of a client without visibility *)
+Definition nv_ec (s : server) (cl : sclient) (exm : N * sent * N) : ent_changes :=
+  cep (sv_last_run s) (sv_tick s) (sv_removal_buf s) (mutation_tick (sfc_ticks1 s cl) (ent_id exm))
+      VVisible (ent_id exm) (snd (fst exm)) (snd exm).
+
+(* proof vocabulary: what an operation s -> s' guarantees *)
+Definition op_ok (s s' : server) : Prop :=
+  srv_base s' /\
+  (sv_running s = true ->
+   (rb_repl s -> rb_repl s') /\ forall t st, pending_ok s t st -> pending_ok s' t st).
+
+(* proof vocabulary: kind k of entity e is in a removal buffer *)
+Definition buffered_in (rb : list (N * list N)) (e k : N) : Prop :=
+  exists ks, al_get e rb = Some ks /\ mem_N k ks = true.
+
+(* proof vocabulary: fields no game operation touches *)
+Definition flags_same (s s' : server) : Prop :=
+  sv_running s' = sv_running s /\ sv_last_running s' = sv_last_running s /\ sv_dirty s' = sv_dirty s /\
+  sv_tick s' = sv_tick s /\ sv_now s' = sv_now s /\ sv_last_run s' = sv_last_run s /\
+  (sv_running s = false -> sv_removal_buf s' = sv_removal_buf s).
+
 (* ---------- a run that carries what every client has been sent ---------- *)
 
 Record gstate := mkG {
